@@ -3,7 +3,7 @@ import json
 import random
 
 from vlib import core, pipeline as P, diffrun
-from vgen import gen as G, gen2 as G2, emit as E, types as T
+from vgen import corpus, gen as G, gen2 as G2, emit as E, types as T
 from vgen.ast import *
 
 LEVEL = 'exploration'
@@ -180,6 +180,18 @@ def gen_cases(ctx):
                 for v in av:
                     c3.jobs.append(P.Job('%s_i%d_%s' % (c3.name, ii, v.name), c3, v, [(init_rel + '!clear', ())] + rows, meta={'expect': [rows]}))
             cases.append(c3)
+    # a relation that holds its own input and is read only by the stratum deriving it: ascent_run! must index the initialiser's rows too
+    rng = random.Random(ctx.rng.getrandbits(48))
+    name, prog, input_rels, mk = corpus.tc_self(rng)
+    vs = [E.Variant('base', prog, 'ascent'), E.Variant('run', prog, 'ascent_run'), E.Variant('runpar', prog, 'ascent_run_par'), E.Variant('par', prog, 'ascent_par')]
+    for v in vs:
+        v.desc = v.kind
+    case = P.Case('k_' + name, prog, vs, meta={'kind': 'packaging', 'variants': {v.name: v.desc for v in vs}})
+    for ii in range(max(4, sz['inputs'] // 2)):
+        rows = list(dict.fromkeys(mk(rng)))
+        for v in vs:
+            case.jobs.append(P.Job('%s_i%d_%s' % (case.name, ii, v.name), case, v, rows, meta={'expect': [rows]}))
+    cases.append(case)
     # generic struct signatures (programs without interpreted functions or constants)
     g = 0
     while g < sz['generic_cases']:
